@@ -244,6 +244,17 @@ def main(argv):
                           'ecall': ['f', 'f', 'f'], 'lopt': [False] * 3,
                           'ok': True, 'expected': None, 'mode': [],
                           'layout': lay})
+    # diamonds over four libraries (a static library reached over two paths
+    # that itself has a static dependency); validated with N = 4
+    dcases = []
+    for kinds in (['static'] * 4, ['static', 'static', 'shared', 'static'],
+                  ['shared', 'static', 'static', 'static']):
+        for elibs in ([3, 4], [4, 3], [4, 3, 2]):
+            dcases.append({'kind': kinds, 'deps': [[], [1], [2], [2]],
+                           'elibs': elibs, 'ecall': ['f'] * 4,
+                           'lopt': [False] * 4, 'ok': True, 'expected': None,
+                           'mode': [], 'layout': len(dcases) % len(LAYOUTS)})
+    dres = pmap(build_case, dcases, jobs=12)
     res = pmap(build_case, cases, jobs=12)
     wjobs = [(lay, MODES[lay % len(MODES)]) for lay in range(len(LAYOUTS))]
     wres = pmap(whole_case, wjobs, jobs=12)
@@ -263,6 +274,20 @@ def main(argv):
         res.append(ev)
         traces.append({'id': len(traces) + 1, 'events': [
             {k: v for k, v in e.items() if k != 'note'} for e in ev]})
+    dtr = [{'id': 100000 + i, 'events': [
+        {k: v for k, v in e.items() if k != 'note'} for e in ev]}
+        for i, ev in enumerate(dres)]
+    drej, dst = validate_traces('Link_Trace', 'CONSTANTS N = 4 KeepFirst = '
+                                'FALSE\nSPECIFICATION TraceSpec\n'
+                                'CHECK_DEADLOCK FALSE\n', dtr, chunk=50)
+    for tid, info in sorted(drej.items()):
+        c = dcases[tid - 100000]
+        ev = dres[tid - 100000][info[1] - 1]
+        ck.report('C14:%s:diamond' % info[0], '%s: %s\nconfig %s' % (
+            info[0], json.dumps(ev)[:600], json.dumps(c)),
+            {'case': c, 'events': dres[tid - 100000]})
+    ck.states += dst['distinct']
+    ck.transitions += dst['generated']
     rej, st = validate_traces('Link_Trace', 'CONSTANTS N = %d KeepFirst = '
                               'FALSE\nSPECIFICATION TraceSpec\n'
                               'CHECK_DEADLOCK FALSE\n' % n, traces, chunk=50)
